@@ -71,7 +71,17 @@ pub fn exec_guarded(def: &CheckDef, s: &Script, st: &mut Stats) -> ExecOut {
     let r = catch_unwind(AssertUnwindSafe(|| (def.exec)(s, st)));
     match r {
         Ok(Ok(i)) => ExecOut::Ok(i),
-        Ok(Err(v)) => ExecOut::Viol(v),
+        Ok(Err(mut v)) => {
+            // a scenario shared between checks names its clauses after its home property; the clause is
+            // reported under the property whose check is running (e.g. C18's mz_deflateReset object uses the
+            // lock-step C ABI scenario: "C17.same_bytes_as_rust" becomes "C18.cabi.same_bytes_as_rust")
+            if let Some((pfx, rest)) = v.clause.split_once('.') {
+                if pfx != def.id && pfx.len() == 3 && pfx.starts_with('C') {
+                    v.clause = format!("{}.{}.{}", def.id, s.scen, rest);
+                }
+            }
+            ExecOut::Viol(v)
+        }
         Err(_) => {
             let m = LAST_PANIC.with(|p| p.borrow().clone());
             let loc = m.rsplit(" @ ").next().unwrap_or("");
